@@ -15,115 +15,12 @@
 (* model is known to reach them: a section longer than its source          *)
 (* (Overlong) and a negative read-at offset (NegOff).                      *)
 (***************************************************************************)
-EXTENDS Integers, Sequences, FiniteSets, TLC
+EXTENDS ReaderStackOps
 CONSTANTS NBytesA, NBytesB,     \* byte lengths of the two leaves
           MaxN,                 \* largest request in bits
           Overlong,             \* TRUE: also sections that reach beyond their source
           NegOff                \* TRUE: also negative read-at offsets
 
-Min2(x, y) == IF x < y THEN x ELSE y
-Max2(x, y) == IF x > y THEN x ELSE y
-Sym(id, j) == 1000 * id + j
-Slice(s, o, n) == SubSeq(s, o + 1, o + n)
-R(bits, err) == [bits |-> bits, err |-> err]
-
-Leaf(id, nb) == [t |-> "leaf", id |-> id, nb |-> nb]
-Sec(r, base, n) == [t |-> "section", r |-> r, base |-> base, n |-> n]
-Mul(rs) == [t |-> "multi", rs |-> rs]
-Zero(n) == [t |-> "zero", n |-> n]
-
-(* ---------------- as required: the denotation ---------------- *)
-RECURSIVE Den(_), Cat(_, _)
-Cat(rs, i) == IF i = 0 THEN <<>> ELSE Cat(rs, i - 1) \o Den(rs[i])
-Den(t) == CASE t.t = "leaf"    -> [j \in 1 .. 8 * t.nb |-> Sym(t.id, j - 1)]
-            [] t.t = "zero"    -> [j \in 1 .. t.n |-> 0 - 1]
-            [] t.t = "section" -> LET d == Den(t.r) IN Slice(d, t.base, Max2(0, Min2(t.n, Len(d) - t.base)))
-            [] t.t = "multi"   -> Cat(t.rs, Len(t.rs))
-
-RECURSIVE WellFormed(_)
-WellFormed(t) == CASE t.t = "section" -> WellFormed(t.r) /\ t.base + t.n <= Len(Den(t.r))
-                   [] t.t = "multi"   -> \A i \in 1 .. Len(t.rs) : WellFormed(t.rs[i])
-                   [] OTHER           -> TRUE
-
-(* ---------------- as built ---------------- *)
-\* endPos(r): SeekBits(0, end) of each reader kind
-RECURSIVE End(_), SumEnd(_, _)
-SumEnd(rs, i) == IF i = 0 THEN 0 ELSE SumEnd(rs, i - 1) + End(rs[i])
-End(t) == CASE t.t = "leaf"    -> 8 * t.nb              \* rs.Seek(0, end) * 8
-            [] t.t = "zero"    -> t.n
-            [] t.t = "section" -> t.n                   \* bitLimit - bitBase, whatever the source holds
-            [] t.t = "multi"   -> SumEnd(t.rs, Len(t.rs))
-
-\* ReadBitsAt(p, n, off)
-RECURSIVE RAt(_, _, _)
-RAt(t, n, off) ==
-    CASE t.t = "leaf" ->
-            IF n < 0 THEN R(<<>>, "neg")
-            ELSE IF off < 0 THEN R(<<>>, "offset")
-            ELSE LET bytePos   == off \div 8
-                     skip      == off % 8
-                     want      == skip + n
-                     wantBytes == (want + 7) \div 8
-                     got       == Min2(wantBytes, Max2(0, t.nb - bytePos))      \* io.ReadFull after Seek(bytePos)
-                     d         == Den(t)
-                 IN IF wantBytes = 0 THEN R(<<>>, "nil")                        \* ReadFull of an empty slice
-                    ELSE IF got = 0 THEN R(<<>>, "eof")                         \* io.EOF is returned as it is, 0 bits
-                    ELSE IF got < wantBytes                                     \* io.ErrUnexpectedEOF: the bits after the skipped ones
-                         THEN R(Slice(d, off, Max2(0, 8 * got - skip)), "eof")
-                         ELSE R(Slice(d, off, n), "nil")
-      [] t.t = "zero" ->
-            IF off < 0 \/ off > t.n THEN R(<<>>, "offset")
-            ELSE IF off = t.n THEN R(<<>>, "eof")
-            ELSE R([j \in 1 .. Min2(n, t.n - off) |-> 0 - 1], "nil")
-      [] t.t = "section" ->
-            IF off < 0 \/ off >= t.n THEN R(<<>>, "eof")
-            ELSE LET o  == off + t.base
-                     mx == (t.base + t.n) - o
-                 IN RAt(t.r, IF n > mx THEN mx ELSE n, o)                       \* clamp; the error of the source is passed on
-      [] t.t = "multi" ->
-            LET k    == Len(t.rs)
-                ends == [i \in 1 .. k |-> SumEnd(t.rs, i)]
-                end  == IF k > 0 THEN ends[k] ELSE 0
-            IN IF end <= off THEN R(<<>>, "eof")
-               ELSE IF k = 0 THEN R(<<>>, "panic")                              \* m.readers[0] of no readers (negative offset only)
-               ELSE LET hit  == {i \in 1 .. k : off < ends[i]}
-                        i    == IF hit = {} THEN 1 ELSE CHOOSE x \in hit : \A y \in hit : x <= y
-                        prev == IF hit = {} \/ i = 1 THEN 0 ELSE ends[i - 1]
-                        r    == RAt(t.rs[i], n, off - prev)
-                    IN IF r.err = "eof" /\ off + Len(r.bits) < end THEN R(r.bits, "nil") ELSE r
-
-\* readFull(p, n, off, fn) with fn = ReadBitsAt of t.  rbo = readBitOffset, acc = the bits placed in p so far.
-RECURSIVE FullLoop(_, _, _, _, _, _)
-FullLoop(t, n, off, rbo, acc, fuel) ==
-    IF ~(rbo < n) THEN [bits |-> acc, ret |-> n, err |-> "nil", hang |-> FALSE]
-    ELSE IF fuel = 0 THEN [bits |-> acc, ret |-> 0, err |-> "nil", hang |-> TRUE]
-    ELSE LET bbo     == rbo % 8
-             partial == (8 - bbo) % 8
-             left    == n - rbo
-         IN IF partial # 0 \/ left < 8
-            THEN LET rb == IF partial = 0 \/ left < partial THEN left ELSE partial
-                     r  == RAt(t, rb, off + rbo)                                 \* into a one byte buffer, then Write64 into p
-                     a2 == acc \o r.bits
-                 IN IF r.err # "nil" THEN [bits |-> a2, ret |-> n - (rbo + Len(r.bits)), err |-> r.err, hang |-> FALSE]
-                    ELSE FullLoop(t, n, off, rbo + Len(r.bits), a2, fuel - 1)
-            ELSE LET r  == RAt(t, left, off + rbo)                               \* straight into p[byteOffset:]
-                     a2 == acc \o r.bits
-                 IN IF r.err # "nil" THEN [bits |-> a2, ret |-> n - (rbo + Len(r.bits)), err |-> r.err, hang |-> FALSE]
-                    ELSE FullLoop(t, n, off, rbo + Len(r.bits), a2, fuel - 1)
-ReadAtFull(t, n, off) == IF n < 0 THEN [bits |-> <<>>, ret |-> 0, err |-> "neg", hang |-> FALSE]
-                         ELSE FullLoop(t, n, off, 0, <<>>, 2 * n + 4)
-
-\* SeekBits of the top reader; returns [pos, err]
-SeekTop(t, pos, off, wh) ==
-    CASE t.t = "section" -> LET p == (CASE wh = 0 -> t.base [] wh = 1 -> t.base + pos [] OTHER -> t.base + t.n) + off
-                            IN IF p < t.base THEN [pos |-> pos, err |-> TRUE] ELSE [pos |-> p - t.base, err |-> FALSE]
-      [] t.t = "multi"   -> LET end == End(t)
-                                p == (CASE wh = 0 -> 0 [] wh = 1 -> pos [] OTHER -> end) + off
-                            IN IF p < 0 \/ p > end THEN [pos |-> pos, err |-> TRUE] ELSE [pos |-> p, err |-> FALSE]
-      [] t.t = "zero"    -> LET p == (CASE wh = 0 -> 0 [] wh = 1 -> pos [] OTHER -> t.n) + off
-                            IN IF p < 0 \/ p > t.n THEN [pos |-> pos, err |-> TRUE] ELSE [pos |-> p, err |-> FALSE]
-      [] OTHER           -> LET p == (CASE wh = 0 -> 0 [] wh = 1 -> pos [] OTHER -> 8 * t.nb) + off
-                            IN IF p < 0 THEN [pos |-> pos, err |-> TRUE] ELSE [pos |-> p, err |-> FALSE]
 
 (* ---------------- the machine: one composition, a history of calls ---------------- *)
 A == Leaf(1, NBytesA)
